@@ -208,11 +208,34 @@ fn case_after(pred: i64, day: i64, use_dt: bool, acc: &mut Acc) {
     }
 }
 
+/// purity probe: a fixed anchor day (2022-05-02, a Monday, day 122, week 18, quarter 2) is asked the
+/// same questions after every day of a sweep; what the sweep's calls leave behind must not change the answer
+const ANCHOR_DAY: i64 = 738_276;
+fn anchor_probe(pred: i64, use_dt: bool, acc: &mut Acc) {
+    let ts = (ANCHOR_DAY - cal::DAYS_TO_1970) * 86_400;
+    let got = if use_dt {
+        call(|| {
+            let v = DateTime::from_timestamp(ts);
+            (v.weekday(), v.day_of_year())
+        })
+    } else {
+        call(|| {
+            let v = Date::from_timestamp(ts);
+            (v.weekday(), v.day_of_year())
+        })
+    };
+    acc.transitions += 1;
+    if got != Out::Val((1, 122)) {
+        acc.violation(if use_dt { "DateTime getters" } else { "Date getters" }, "answer-depends-on-the-previous-call", json!({"kind": "after", "day": ANCHOR_DAY, "pred": pred, "datetime": use_dt}), "(1, 122)".into(), got.show());
+    }
+}
+
 fn sweep_getters(rep: &mut Report, name: &str, lo: i64, hi: i64, use_dt: bool) {
     rep.sweep_chunked(name, (hi - lo + 1) as u64, "weekday()/day_of_year() against the walker", |a, b, acc| {
         let mut w = Walker::at(lo + a as i64);
         for i in a..b {
             case_getters(&w, use_dt, acc);
+            anchor_probe(w.day, use_dt, acc);
             if i % 300_000_007 == 0 {
                 acc.sample(json!({"op": "weekday/day_of_year", "day": w.day, "weekday": w.wd, "doy": w.doy}));
             }
